@@ -158,6 +158,15 @@ def runBuild : List String → String
       let r := Capnp.Model.CopyStruct.copyInto mem (idx * dw) dw s
       toHex ((r.take (n * dw) ++ r.drop padded).map UInt8.ofNat)
     | _, _, _, _, _ => "bad-op"
+  | ["copygrow", src, dw, n, idx, old, _] =>   -- C16 (the copy of a pointer moves the arena meanwhile; the data path is the same): `copyStruct`'s data path on the bytes of a list and of the object behind it (Model.CopyStruct)
+    let hexNats (s : String) : Option (List Nat) := if s = "-" then some [] else (parseHex s).map (fun l => l.map UInt8.toNat)
+    match hexNats src, dw.toNat?, n.toNat?, idx.toNat?, hexNats old with
+    | some s, some dw, some n, some idx, some o =>
+      let padded := (n * dw + 7) / 8 * 8
+      let mem := o ++ List.replicate (padded - n * dw) 0 ++ List.replicate 8 0xcc
+      let r := Capnp.Model.CopyStruct.copyInto mem (idx * dw) dw s
+      toHex ((r.take (n * dw) ++ r.drop padded).map UInt8.ofNat) ++ "|ok"
+    | _, _, _, _, _ => "bad-op"
   | ["spec", shadow, segs] =>    -- C05: the independent decoder reconstructs exactly the written tree
     match parseSegs segs with
     | some sg => let t := Capnp.Spec.Encoding.decodeTree sg; if t = shadow then "ok" else "diff " ++ t
